@@ -125,6 +125,14 @@ Print Assumptions C07_chk_sound_allow.
 Theorem C07_chk_sound_state : forall ua up s who, inv s -> state_clauses up who None (obs_of ua up s) = [].
 Proof. exact chk_sound_state. Qed.
 Print Assumptions C07_chk_sound_state.
+(* in particular: the voter list of the model names each eligible actor exactly once (no "voters-missing",
+   "voters-extra", "voters-duplicate"), and the records carry no repeated role / permission *)
+Theorem C07_chk_sound_voters_each_once : forall ua up s, inv s -> voters_disc (obs_of ua up s) = [].
+Proof. exact chk_sound_voters. Qed.
+Print Assumptions C07_chk_sound_voters_each_once.
+Theorem C07_chk_sound_records : forall ua up s, inv s -> record_disc (obs_of ua up s) = [].
+Proof. exact chk_sound_records. Qed.
+Print Assumptions C07_chk_sound_records.
 Theorem C07_chk_sound_gate : forall c ua up s o s', step c s o = Ok s' ->
   (dapp_perm c = PermCreateDappProposalWithoutBond \/ forall x, o <> OGate GDapp x) ->
   gate_spec (obs_of ua up s) o = true.
